@@ -340,7 +340,7 @@ class C15(Check):
         'through the normal-equation residual relative to sum |G| w (|y| + |G||a|), because the eigenspectra are returned '
         'rounded to float32 (eps32 = 1.2e-7, tolerance 1e-5)',
     ]
-    REQUIRED_COUNTERS = (
+    REQUIRED_COUNTERS = ('hmf_masked_edge_columns', 'chi2_cond_above_1e8', 
         'contract:components_have_unit_rms_on_entry', 'contract:chi2_not_increased_since_last_update',
         'contract:astep_is_weighted_lsq_optimum', 'contract:astep_does_not_increase_badness',
         'contract:gstep_solves_per_pixel_equations', 'contract:gstep_does_not_increase_badness',
@@ -394,6 +394,7 @@ class C15(Check):
             'chi2_random': 1200 if q else 16000,
             'chi2_collinear': 500 if q else 8000,
             'chi2_poly': 250 if q else 4000,
+            'chi2_pixelpoly': 200 if q else 3000,
             'chi2_float32': 250 if q else 4000,
             'pcomp_tall': 700 if q else 10000,
             'pcomp_wide': 400 if q else 6000,
@@ -418,7 +419,13 @@ class C15(Check):
         for attempt in range(30):
             n = int(g.integers(10, 201))
             m = int(g.integers(1, 9))
-            if cls == 'chi2_poly':
+            if cls == 'chi2_pixelpoly':
+                # polynomial in pixel number: full rank but moderately ill-conditioned (cond(A) 1e2..3e5)
+                n = int(g.integers(40, 201))
+                m = int(g.integers(2, 5))
+                x = np.arange(n, dtype='f8') + (g.uniform(0, 1) if rng.random() < 0.5 else 0.0)
+                A = np.vander(x, m, increasing=True)
+            elif cls == 'chi2_poly':
                 m = int(g.integers(1, 6))
                 x = np.sort(g.uniform(-1, 1, n)) if rng.random() < 0.5 else np.linspace(-1, 1, n)
                 x = x * 10.0 ** g.uniform(-0.3, 0.5)
@@ -449,13 +456,13 @@ class C15(Check):
             b = b.astype(dts[1]).astype('f8')
             sq = sq.astype(dts[2]).astype('f8')
             sv = np.linalg.svd(A * sq[:, None], compute_uv=False)
-            if sv[-1] > 0 and (sv[0] / sv[-1]) ** 2 <= COND_MAX:
+            if sv[-1] > 0 and (sv[0] / sv[-1]) ** 2 <= (1e11 if cls == 'chi2_pixelpoly' else COND_MAX):
                 break
         else:
             return None
         order = ['acoeff', 'chi2', 'yfit', 'dof', 'covar', 'var']
         rng.shuffle(order)
-        return {'kind': 'chi2', 'A': _lists(A), 'b': _lists(b), 'sqivar': _lists(sq), 'dtypes': dts, 'order': order}
+        return {'kind': 'chi2', 'cls': cls, 'A': _lists(A), 'b': _lists(b), 'sqivar': _lists(sq), 'dtypes': dts, 'order': order}
 
     def _gen_pcomp(self, cls, rng, g):
         m = int(g.integers(2, 13))
@@ -491,6 +498,16 @@ class C15(Check):
         maskfrac = rng.choice([0.0, 0.02, 0.05, 0.1, 0.15])
         junk = rng.choice(['keep', 'zero', 'wild'])
         s, w = _spectral_matrix(g, N, M, K, nonneg, maskfrac, junk)
+        edges = [0, 0]
+        if rng.random() < 0.4:
+            # leading / trailing pixels masked in every spectrum (rest-frame shifted spectra): HMF trims these columns
+            edges = [rng.randint(0, 4), rng.randint(0, 4)]
+            if edges == [0, 0]:
+                edges[rng.randint(0, 1)] = rng.randint(1, 4)
+            if edges[0]:
+                w[:, :edges[0]] = 0
+            if edges[1]:
+                w[:, M - edges[1]:] = 0
         if cls == 'hmf_exact':
             eps = rng.choice([None, 0.0])
         elif cls == 'hmf_smooth':
@@ -498,7 +515,7 @@ class C15(Check):
         else:
             eps = rng.choice([None, None, 0.0, 0.1, 10.0, 1e3])
         return {'kind': 'hmf', 'spectra': _lists(s), 'invvar': _lists(w), 'K': K, 'n_iter': rng.randint(2, 8),
-                'seed': rng.randint(0, 2 ** 31 - 1), 'epsilon': eps, 'nonnegative': nonneg,
+                'seed': rng.randint(0, 2 ** 31 - 1), 'epsilon': eps, 'nonnegative': nonneg, 'masked_edges': edges,
                 'global_seeds': [rng.randint(0, 2 ** 31 - 1), rng.randint(0, 2 ** 31 - 1)]}
 
     def _gen_pca(self, cls, rng, g):
@@ -534,9 +551,10 @@ class C15(Check):
         n, m = A.shape
         ref = R.wls(A, b, sq)
         cond = (ref['smax'] / ref['smin']) ** 2
-        if not cond <= COND_MAX * 10:
+        if not cond <= (1e12 if case.get('cls') == 'chi2_pixelpoly' else COND_MAX * 10):
             out.undecide()
             return
+        out.count('chi2_cond_above_1e8', cond > 1e8)
         c = self.PM.computechi2(b, sq, A)
         got = {}
         for name in case['order']:
@@ -666,6 +684,7 @@ class C15(Check):
         N, M = s0.shape
         K, n_iter, eps, nonneg = case['K'], case['n_iter'], case['epsilon'], case['nonnegative']
         nonneg_data = bool((s0 >= 0).all())
+        out.count('hmf_masked_edge_columns', any(case.get('masked_edges', [0, 0])))
         before = dict(MON.evals)
         state = np.random.get_state()
         results = []
@@ -687,16 +706,19 @@ class C15(Check):
                     before = dict(MON.evals)
                 out.count('hmf_solves')
                 a, gg = np.asarray(res['acoeff']), np.asarray(res['flux'])
-                ok = a.shape == (N, K) and gg.shape == (K, M) and np.isfinite(a).all() and np.isfinite(gg).all()
+                # pixels masked in every spectrum at the two ends are trimmed by HMF (largest contiguous good range)
+                Mt = M - sum(case.get('masked_edges', [0, 0]))
+                ok = a.shape == (N, K) and gg.shape == (K, Mt) and np.isfinite(a).all() and np.isfinite(gg).all()
                 out.expect(ok, 'hmf-result', 'solve() returned acoeff %r / flux %r, expected (%d,%d) / (%d,%d), finite' % (
-                    a.shape, gg.shape, N, K, K, M))
+                    a.shape, gg.shape, N, K, K, Mt))
                 if not ok:
                     return
                 # after the last iteration: unit rms, model unchanged by reorder/normalisation
                 dev = float(np.max(np.abs(R.rms_rows(gg) - 1.0)))
                 MON.worst('rms_deviation', dev)
                 out.expect(dev <= TOL_RMS, 'unit-rms', 'returned components do not have unit rms: max |rms-1| = %.3g' % dev)
-                cfin = R.hmf_chi2(s0, w0, a, gg)
+                e0, e1 = case.get('masked_edges', [0, 0])
+                cfin = R.hmf_chi2(s0[:, e0:M - e1], w0[:, e0:M - e1], a, gg)      # the trimmed columns carry no weight
                 if MON.last_chi2 is not None:
                     inc = _rel_increase(MON.last_chi2, cfin)
                     MON.worst('chi2_increase_between_updates', max(inc, 0.0))
